@@ -591,6 +591,8 @@ def catalogue():
         add('classify.equal_interval', k=k)
     add('classify.natural_breaks', k=3)
     add('classify.natural_breaks', k=3, num_sample=20)
+    add('classify.natural_breaks', k=3, num_sample=20, shape=[9, 10])     # same num_sample, larger raster
+    add('classify.natural_breaks', k=3, num_sample=20, shape=[5, 5])      # same num_sample, smaller raster
     add('classify.reclassify', bins=[1, 3, 5], new_values=[10, 20, 30])
     add('zonal.stats', dtype='float64')
     add('zonal.stats', dtype='int32', stats_funcs=['mean', 'sum'])
@@ -601,7 +603,7 @@ def catalogue():
     add('zonal.crop', dtype='float64', zones_ids=[2.0, 4.0])
     add('experimental.polygonize.polygonize', dtype='int32', connectivity=8)
     add('zonal.regions', dtype='float64', neighborhood=8)
-    for seed in (3, 5):
+    for seed in (3, 5, 0):                                                # 0: a falsy but valid seed
         add('perlin.perlin', seed_arg=seed)
         add('terrain.generate_terrain', seed_arg=seed)
     add('perlin.perlin', seed_arg=5, backend='dask')
@@ -927,6 +929,13 @@ def search(ctx):
             for k in range(0, len(s), 2):
                 s[k] = rng.choice(focus)
         seqs.append(s)
+    # every variant of each focused function back to back, in both orders (stale state keyed on part of the arguments)
+    fam = {}
+    for i in focus:
+        fam.setdefault(cat[i]['fn'], []).append(i)
+    for fn_, ids in sorted(fam.items()):
+        if len(ids) >= 2:
+            seqs.append(ids + ids[::-1])
     run_sequences(ctx, seqs, [1, 4, 16])
 
 
